@@ -367,6 +367,9 @@ class World:
             self.mkdir(d)
         self.set_dev("/dev/tty1", 0x0401)
         self.set_dev("/dev/pts/0", 0x8800)
+        # minors >= 256 live in bits 20.. of the device number (and of tty_nr)
+        for minor in (1, 4, 255, 256, 1024, 4097):
+            self.set_dev("/dev/pts/%d" % minor, 0x8800 | (minor & 0xff) | ((minor & ~0xff) << 12))
         self.set_dev("/dev/null", 0x0103)
         self.set_file("/bin/proc", b"#!")
         self.set_link("/proc/self", "%d" % self.mypid)
